@@ -3,3 +3,6 @@ import RedisVerif.Model.Crdt
 import RedisVerif.Lemmas.NMap
 import RedisVerif.Lemmas.Crdt
 import RedisVerif.Props.C07
+import RedisVerif.Model.Ring
+import RedisVerif.Lemmas.Ring
+import RedisVerif.Props.C19
